@@ -27,6 +27,15 @@ structure Lat (L : Type) where
 def upd {α : Type} (f : Nat → α) (i : Nat) (v : α) : Nat → α :=
   fun j => if j = i then v else f j
 
+/-- `f` on `0..a.size-1` read from the table `a`, `f` itself elsewhere. Used only to keep
+the executable runs fast (`tabulate … = f`, LatLemmas.lean): states are functions, and
+without it every solver iteration would add a closure layer to each lookup. -/
+@[noinline] def lookupTab {α : Type} (a : Array α) (f : Nat → α) (v : Nat) : α :=
+  if h : v < a.size then a[v] else f v
+
+def tabulate {α : Type} (N : Nat) (f : Nat → α) : Nat → α :=
+  lookupTab (Array.ofFn (n := N) (fun i => f i.val)) f
+
 /-! ## dense solver (forward.go) -/
 namespace Dense
 
@@ -94,6 +103,11 @@ def process {L : Type} (lat : Lat L) (G : Graph) (tr : Nat → L → L) (s : St 
 def queued {L : Type} (G : Graph) (s : St L) : List Nat :=
   (List.range G.n).filter s.q
 
+/-- the same state with its functions tabulated (`reify G s = s`). -/
+def reify {L : Type} (G : Graph) (s : St L) : St L :=
+  { inF := tabulate G.n s.inF, outF := tabulate G.m s.outF,
+    dirty := tabulate G.n s.dirty, q := tabulate G.n s.q }
+
 /-- Run with a schedule `pick` (chooses a position in the non-empty list of queued nodes;
 taken modulo its length) until the queue is empty or the fuel runs out.  Returns the state
 and the number of iterations. -/
@@ -106,7 +120,7 @@ def run {L : Type} (lat : Lat L) (G : Graph) (tr : Nat → L → L) (pick : Nat 
     | x :: xs =>
       let l := x :: xs
       let b := l.getD (pick k l % l.length) x
-      run lat G tr pick fuel (k + 1) (process lat G tr s b)
+      run lat G tr pick fuel (k + 1) (reify G (process lat G tr s b))
 
 end Dense
 
@@ -155,7 +169,11 @@ def process {L : Type} (lat : Lat L) (P : Prog L) (s : St L) (i : Nat) : St L :=
 def queued {L : Type} (P : Prog L) (s : St L) : List Nat :=
   (List.range P.n).filter s.w
 
-def run {L : Type} (lat : Lat L) (P : Prog L) (pick : Nat → List Nat → Nat) :
+/-- the same state with its functions tabulated over the first `nv` values. -/
+def reify {L : Type} (P : Prog L) (nv : Nat) (s : St L) : St L :=
+  { val := tabulate nv s.val, w := tabulate P.n s.w }
+
+def run {L : Type} (lat : Lat L) (P : Prog L) (nv : Nat) (pick : Nat → List Nat → Nat) :
     Nat → Nat → St L → St L × Nat
   | 0, k, s => (s, k)
   | fuel + 1, k, s =>
@@ -164,7 +182,7 @@ def run {L : Type} (lat : Lat L) (P : Prog L) (pick : Nat → List Nat → Nat) 
     | x :: xs =>
       let l := x :: xs
       let i := l.getD (pick k l % l.length) x
-      run lat P pick fuel (k + 1) (process lat P s i)
+      run lat P nv pick fuel (k + 1) (reify P nv (process lat P s i))
 
 end Sparse
 
